@@ -1,7 +1,7 @@
 #!/usr/bin/env python3
 """Generates /verif/MANIFEST.json from the table below (run after adding a property's rules)."""
 import json, subprocess
-BUILT = "C01 C02 C03 C04 C05 C06 C07 C08 C09 C10 C11 C12 C13 C14 C15 C16 C17 C18".split()
+BUILT = "C01 C02 C03 C04 C05 C06 C07 C08 C09 C10 C11 C12 C13 C14 C15 C16 C17 C18 C19 C20".split()
 NA = {}  # property -> reason (genuinely not applicable)
 TECH = {
  "C01": "state-graph dominance (K1) + CFG path rules on gate routing/order (K2,K3) + exact caller sets (K4) over go/types+go/cfg",
@@ -21,6 +21,8 @@ TECH = {
  "C16": "pipeline ordering on CFG paths (K3), required-field guard table on every accepting path (K2), child coverage from go/types (K7), def-use of the shared key set (K11), comparison shape (K5), error discipline (K6)",
  "C17": "reflect.Kind dispatch coverage and callee-assertion contradiction check (K9), scrub-before-return dominance (K3), aliasing lint (K7), call-order and recursion discipline (K4,K6)",
  "C18": "field coverage and aliasing lint from go/types (K7), branch-scoped assignment of engine-owned fields and nil-result guards (K2)",
+ "C19": "source-order visit table against the field list from go/types (K7), chain def-use (K11), visitor-result discipline at every yield/walk call (K6)",
+ "C20": "prologue guard order on CFG paths (K10), nil-guard dominance (K10), truncate/re-root pairing (K3), type-switch placement table and sibling-case field agreement (K2,K7)",
  "C09": "terminal-status guard dominance on CFG paths (K2), fix* prologue guards (K10), exact caller sets (K4)",
 }
 def text(p):
